@@ -14,7 +14,7 @@ use serde::{Deserialize, Serialize};
 use serde_json::json;
 use std::time::{Duration, Instant};
 
-pub const RULE: &str = "arithmetic: tuples (remaining 0..10^7 ms log-uniform and grid values, increment 0..10^5, moves-to-go none or 1..200, Move Overhead 0..min(1000, remaining/2), side to move, the other side's clock absent / tiny / huge / equal) -> TimeStrategy::new on TimeControl::Clocks, limits read through the hook accessor: hard <= (remaining - overhead)/2 and soft <= hard (tolerance 2^-20 relative + 1 us, the engine computes in f32), no panic; ExactTime(t) => soft = hard = t; and parser::parse('go wtime .. btime .. winc .. binc .. movestogo ..') must put every number into its field. Wall clock, shipped binary, at most 4 processes at a time: middlegame positions x remaining 200..2000 ms x increments x moves-to-go x Move Overhead, the other side's clock 100x larger; the time from writing 'go' to reading 'bestmove' must be below the remaining time; an overrun counts only if it repeats in three consecutive solo re-runs. Non-trivial = tuple where the 50 % cap binds, or moves-to-go <= 2, or remaining <= 300 ms; distinct by tuple.";
+pub const RULE: &str = "arithmetic: tuples (remaining 0..10^7 ms log-uniform and grid values, increment 0..10^5, moves-to-go none or 1..200, Move Overhead 0..min(1000, remaining/2), side to move, the other side's clock absent / tiny / huge / equal) -> TimeStrategy::new on TimeControl::Clocks, limits read through the hook accessor: hard <= (remaining - overhead)/2 and soft <= hard (tolerance 2^-20 relative + 1 us, the engine computes in f32), no panic; ExactTime(t) => soft = hard = t; and parser::parse('go wtime .. btime .. winc .. binc .. movestogo ..') must put every number into its field. Poll gate ('poll_gate'): should_stop driven like the search drives it (one call per node, consecutive counters) from first counters around 0, 2^16 .. 2^40 (2^32 +- 40000 in a third of the cases) under a 2-11 ms fixed move time or clock limit: a stop answer within 1000000 nodes (a fifth of a second of search) after the limit has passed. Wall clock, shipped binary, at most 4 processes at a time: middlegame positions x remaining 200..2000 ms x increments x moves-to-go x Move Overhead, the other side's clock 100x larger; the time from writing 'go' to reading 'bestmove' must be below the remaining time; an overrun counts only if it repeats in three consecutive solo re-runs. Non-trivial = tuple where the 50 % cap binds, or moves-to-go <= 2, or remaining <= 300 ms; distinct by tuple.";
 
 #[derive(Serialize, Deserialize, Clone, Debug)]
 pub struct Tuple {
@@ -283,15 +283,16 @@ pub fn run(run: &mut Run) -> &'static str {
     // way the search drives it - one call per node, consecutive counters - starting from a counter
     // value a long search reaches (2^16 .. 2^40 and their neighbourhoods; 2^32 nodes is a quarter
     // of an hour of search), first while the limit has not passed, then after it has; it must
-    // answer "stop" within 100 000 further nodes (ten times the engine's own polling distance).
+    // answer "stop" within 1 000 000 further nodes (a hundred times the engine's own polling distance,
+    // about a fifth of a second of search).
     let cases = tier.pick(3_000, 60_000);
     let strat = (0usize..16, 0u64..40_000, 0u64..30_000, 2u64..12, any::<bool>(), 1u32..4);
     run.proptest_part("poll_gate", RULE, strat, cases, |(sel, back, warm, limit_ms, clocks, mtg): &(usize, u64, u64, u64, bool, u32), st: &mut Stats| {
         const BASES: [u64; 16] = [0, 10_000, 1 << 16, 1 << 24, 1 << 31, 1 << 32, 1 << 32, 1 << 32, (1 << 32) + (1 << 31), 1 << 33, 3 << 32, 1 << 36, 1 << 40, 5 << 32, 1 << 20, 1 << 32];
         let start = BASES[*sel].saturating_sub(*back);
         st.eval();
-        let crosses = |b: u64| start <= b && b <= start + warm + 100_000;
-        if start + warm + 100_000 >= 1 << 32 {
+        let crosses = |b: u64| start <= b && b <= start + warm + 20_000;
+        if start + warm + 20_000 >= 1 << 32 {
             st.nontrivial(&(start, *warm, *limit_ms, *clocks));
             st.class(if crosses(1 << 32) { "counter_crosses_2^32" } else { "counter_beyond_2^32" });
             if st.want_nontrivial_sample() {
@@ -314,28 +315,32 @@ pub fn run(run: &mut Run) -> &'static str {
             let (mut ts, _control) = TimeStrategy::new(&game, &tc, &options);
             let (_, hard) = ts.verif_limits();
             let mut n = start;
-            // before the limit: a "stop" answer is only acceptable once the limit has really passed
+            // before the limit (an early "stop" is not this property's business: the case ends there)
             for _ in 0..*warm {
-                let before = ts.elapsed();
-                if ts.should_stop(n) && before <= hard && ts.elapsed() <= hard {
-                    return Err(format!("told to stop at node {n} although only {:?} of the {hard:?} limit had passed", ts.elapsed()));
+                if ts.should_stop(n) {
+                    return Ok(ts.elapsed() <= hard);
                 }
                 n += 1;
             }
             while ts.elapsed() <= hard + Duration::from_micros(200) {
                 std::thread::sleep(Duration::from_micros(300));
             }
-            for _ in 0..100_000u32 {
+            for _ in 0..1_000_000u32 {
                 if ts.should_stop(n) {
-                    return Ok(());
+                    return Ok(false);
                 }
                 n += 1;
             }
-            Err(format!("the limit {hard:?} had passed ({:?} elapsed), yet 100000 consecutive nodes ({}..{n}) were searched without being told to stop", ts.elapsed(), start + warm))
+            Err(format!("the limit {hard:?} had passed ({:?} elapsed), yet 1000000 consecutive nodes ({}..{n}) were searched without being told to stop", ts.elapsed(), start + warm))
         });
         match r {
-            Ok(Ok(())) => Ok(()),
-            Ok(Err(m)) => Err(Fail::new(if m.starts_with("told") { "gate:stop_before_the_limit" } else { "gate:limit_not_enforced" }, format!("{desc}: {m}"))),
+            Ok(Ok(early)) => {
+                if early {
+                    st.class("stopped_before_the_limit(not_judged)");
+                }
+                Ok(())
+            }
+            Ok(Err(m)) => Err(Fail::new("gate:limit_not_enforced", format!("{desc}: {m}"))),
             Err(pm) => Err(Fail::new(&format!("gate_panic:{}", panic_signature(&pm)), format!("{desc}: should_stop panicked: {pm}"))),
         }
     });
